@@ -428,13 +428,13 @@ func runNyctTrips(c *Ctx) {
 					for _, k := range set {
 						stations = append(stations, strings.Trim(k, "\""))
 					}
-					okTable = strings.Contains(b.bind(subj), "slice(proto:TripUpdate_StopTimeUpdate.StopId")
+					okTable = strings.Contains(bindSubject(b, subj, ce.Cond), "slice(proto:TripUpdate_StopTimeUpdate.StopId")
 				}
 			}
 			c.Check(strings.Join(stations, ",") == strings.Join(wantStations, ","), "NYCT", fname, "affected stations are M11-M14, M16, M18", p.pos(fix.Pos()), strings.Join(stations, ","), "the station set is "+strings.Join(stations, ",")+", documented set is "+strings.Join(wantStations, ","))
 			expr := b.bind(fs.store.Val)
 			// the character table: under 'N' (78) store 'S' (83), under 'S' store 'N', nothing else
-			charOK := checkSwapTable(fs.store)
+			charOK := checkSwapTable(fs.store) || swapByAlternatives(b, fs.store.Val)
 			c.Check(okRoute && okLen && okTable, "NYCT", fname, "platform fix limited to route M, 4-character ids at the listed stations", p.ipos(fs.store), "store dominated by route == \"M\", len(stopID) == 4 and membership in the station table", "the platform rewrite is not confined to route M / four-character stop ids / the listed stations")
 			c.Check(charOK, "NYCT", fname, "platform fix swaps N and S only", p.ipos(fs.store), "N -> S, S -> N, anything else left alone: the fix is its own inverse", "the character table is not the involution N<->S (e.g. any non-N suffix is rewritten to N): "+clip(expr, 120))
 			c.Check(strings.Contains(expr, "slice(proto:TripUpdate_StopTimeUpdate.StopId") && fs.field == "StopId", "NYCT", fname, "platform fix keeps the station part", p.ipos(fs.store), "new id = stopID[:3] + swapped direction", "the rewritten stop id does not keep the first three characters")
@@ -1049,37 +1049,23 @@ func storeAlternatives(b *binder, v ssa.Value) []storeAlt {
 	case *ssa.Alloc:
 		for _, r := range *x.Referrers() {
 			if st, ok := r.(*ssa.Store); ok && st.Addr == ssa.Value(x) {
-				out = append(out, storeAlt{guardStrings(b, st.Block()), b.bind(st.Val)})
+				inner := storeAlternatives(b, st.Val)
+				gs := guardStrings(b, st.Block())
+				if _, isCallish := st.Val.(*ssa.Extract); isCallish && len(inner) > 0 {
+					for _, in := range inner {
+						out = append(out, storeAlt{append(append([]string{}, gs...), in.guards...), in.val})
+					}
+					continue
+				}
+				out = append(out, storeAlt{gs, b.bind(st.Val)})
 			}
+		}
+	case *ssa.Extract:
+		if call, ok := x.Tuple.(*ssa.Call); ok {
+			return callAlternatives(b, call, x.Index)
 		}
 	case *ssa.Call:
-		// a module helper that picks the value: each of its returns with the conditions under which it is taken, in
-		// terms of the call's arguments
-		cal := x.Call.StaticCallee()
-		if cal == nil || x.Call.IsInvoke() || !b.c.P.isModuleFn(cal) || len(cal.Blocks) == 0 || len(cal.Params) != len(x.Call.Args) || b.inlineD >= 2 {
-			return nil
-		}
-		var args []string
-		for _, a := range x.Call.Args {
-			args = append(args, b.bind(a))
-		}
-		sub := b.withArgs(cal, args)
-		sub.showBodies = b.showBodies
-		for _, blk := range cal.Blocks {
-			ret, ok := blk.Instrs[len(blk.Instrs)-1].(*ssa.Return)
-			if !ok || len(ret.Results) != 1 {
-				continue
-			}
-			gs := guardStrings(sub, blk)
-			inner := storeAlternatives(sub, ret.Results[0])
-			if len(inner) == 0 {
-				out = append(out, storeAlt{gs, sub.bind(ret.Results[0])})
-				continue
-			}
-			for _, in := range inner {
-				out = append(out, storeAlt{append(append([]string{}, gs...), in.guards...), in.val})
-			}
-		}
+		return callAlternatives(b, x, 0)
 	case *ssa.Phi:
 		for i, ed := range x.Edges {
 			pred := x.Block().Preds[i]
@@ -1089,9 +1075,59 @@ func storeAlternatives(b *binder, v ssa.Value) []storeAlt {
 				if pred.Succs[0] == x.Block() {
 					sign = "+"
 				}
-				gs = append(gs, sign+b.bind(iff.Cond))
+				cnd, val := normalizeCond(iff.Cond, sign == "+")
+				if val {
+					sign = "+"
+				} else {
+					sign = "-"
+				}
+				gs = append(gs, sign+b.bind(cnd))
 			}
 			out = append(out, storeAlt{gs, b.bind(ed)})
+		}
+	}
+	return out
+}
+
+// callAlternatives: a module helper that picks the value: each of its returns (result idx) with the conditions
+// under which it is taken, in terms of the call's arguments.
+func callAlternatives(b *binder, x *ssa.Call, idx int) []storeAlt {
+	var out []storeAlt
+	cal := x.Call.StaticCallee()
+	if cal == nil || x.Call.IsInvoke() || !b.c.P.isModuleFn(cal) || len(cal.Blocks) == 0 || len(cal.Params) != len(x.Call.Args) || b.inlineD >= 2 {
+		return nil
+	}
+	var args []string
+	for _, a := range x.Call.Args {
+		args = append(args, b.bind(a))
+	}
+	sub := b.withArgs(cal, args)
+	sub.showBodies = b.showBodies
+	for _, blk := range cal.Blocks {
+		ret, ok := blk.Instrs[len(blk.Instrs)-1].(*ssa.Return)
+		if !ok || idx >= len(ret.Results) {
+			continue
+		}
+		// guards of the return block; when the block is entered straight from a test (a switch arm), that test too
+		gs := guardStrings(sub, blk)
+		if len(blk.Preds) == 1 {
+			pred := blk.Preds[0]
+			if iff, isIf := pred.Instrs[len(pred.Instrs)-1].(*ssa.If); isIf && pred.Succs[0] != pred.Succs[1] {
+				cnd, val := normalizeCond(iff.Cond, pred.Succs[0] == blk)
+				sign := "-"
+				if val {
+					sign = "+"
+				}
+				gs = append(gs, sign+sub.bind(cnd))
+			}
+		}
+		inner := storeAlternatives(sub, ret.Results[idx])
+		if len(inner) == 0 {
+			out = append(out, storeAlt{gs, sub.bind(ret.Results[idx])})
+			continue
+		}
+		for _, in := range inner {
+			out = append(out, storeAlt{append(append([]string{}, gs...), in.guards...), in.val})
 		}
 	}
 	return out
@@ -1154,6 +1190,9 @@ func (c *Ctx) membershipSet(cond ssa.Value) ([]string, ssa.Value, bool) {
 		if lk, ok := x.Tuple.(*ssa.Lookup); ok {
 			return c.membershipSet(lk)
 		}
+		if call, ok := x.Tuple.(*ssa.Call); ok {
+			return c.membershipOfCall(call, x.Index)
+		}
 	case *ssa.Lookup:
 		if _, isMap := x.X.Type().Underlying().(*types.Map); !isMap {
 			return nil, nil, false
@@ -1205,43 +1244,7 @@ func (c *Ctx) membershipSet(cond ssa.Value) ([]string, ssa.Value, bool) {
 		sort.Strings(keys)
 		return keys, x.Index, true
 	case *ssa.Call:
-		cal := x.Call.StaticCallee()
-		if cal == nil || !c.P.isModuleFn(cal) || len(cal.Params) != 1 || len(x.Call.Args) != 1 || cal.Signature.Results().Len() != 1 {
-			return nil, nil, false
-		}
-		if bt, ok := cal.Signature.Results().At(0).Type().Underlying().(*types.Basic); !ok || bt.Kind() != types.Bool {
-			return nil, nil, false
-		}
-		tb, err := extractTable(cal)
-		if err != nil {
-			return nil, nil, false
-		}
-		var keys []string
-		for _, r := range tb.rows {
-			if r.results[0] != "const:true" {
-				if r.results[0] != "const:false" {
-					return nil, nil, false
-				}
-				continue
-			}
-			// a true row: exactly one positive equality of the parameter with a string constant
-			pos := 0
-			for _, a := range r.conds {
-				if a.opaque {
-					return nil, nil, false
-				}
-				if !a.neg && a.subj == cal.Params[0].Name() {
-					pos++
-					keys = append(keys, a.konst)
-				}
-			}
-			if pos != 1 {
-				return nil, nil, false
-			}
-		}
-		sort.Strings(keys)
-		keys = dedup(keys)
-		return keys, x.Call.Args[0], len(keys) > 0
+		return c.membershipOfCall(x, 0)
 	}
 	return nil, nil, false
 }
@@ -1277,4 +1280,146 @@ func hasGuardClass(b *binder, gs []string, sign, class string) bool {
 		}
 	}
 	return false
+}
+
+// membershipOfCall: the call's boolean result idx is true only for a fixed set of string constants: in the callee's
+// decision table every row answering true carries exactly one positive equality of one and the same string-valued
+// subject with a constant (besides whatever other tests it makes). Returns the set and the subject as the callee
+// sees it (a value of the callee; bind it with the call's arguments).
+func (c *Ctx) membershipOfCall(x *ssa.Call, idx int) ([]string, ssa.Value, bool) {
+	cal := x.Call.StaticCallee()
+	if cal == nil || x.Call.IsInvoke() || !c.P.isModuleFn(cal) || len(cal.Blocks) == 0 || idx >= cal.Signature.Results().Len() {
+		return nil, nil, false
+	}
+	if bt, ok := cal.Signature.Results().At(idx).Type().Underlying().(*types.Basic); !ok || bt.Kind() != types.Bool {
+		return nil, nil, false
+	}
+	tb, err := extractTable(cal)
+	if err != nil {
+		return nil, nil, false
+	}
+	bySubj := map[string][]string{}
+	subjVal := map[string]ssa.Value{}
+	nTrue := 0
+	rowsWith := map[string]int{}
+	for _, r := range tb.rows {
+		if idx >= len(r.results) {
+			return nil, nil, false
+		}
+		if r.results[idx] != "const:true" {
+			if r.results[idx] != "const:false" {
+				return nil, nil, false
+			}
+			continue
+		}
+		nTrue++
+		seen := map[string]int{}
+		for _, a := range r.conds {
+			if a.opaque || a.neg || a.konst == "nil" || a.konst == "true" || a.konst == "false" {
+				continue
+			}
+			seen[a.subj]++
+			bySubj[a.subj] = append(bySubj[a.subj], a.konst)
+			if bo, isBo := a.v.(*ssa.BinOp); isBo {
+				if _, isC := bo.Y.(*ssa.Const); isC {
+					subjVal[a.subj] = bo.X
+				} else {
+					subjVal[a.subj] = bo.Y
+				}
+			}
+		}
+		for s, n := range seen {
+			if n == 1 {
+				rowsWith[s]++
+			}
+		}
+	}
+	if nTrue == 0 {
+		return nil, nil, false
+	}
+	// the subject tested (once) in every true row; if several qualify, the one with the largest constant set
+	best := ""
+	for s, n := range rowsWith {
+		if n == nTrue && (best == "" || len(dedup(bySubj[s])) > len(dedup(bySubj[best]))) {
+			best = s
+		}
+	}
+	if best == "" {
+		return nil, nil, false
+	}
+	keys := append([]string{}, bySubj[best]...)
+	sort.Strings(keys)
+	keys = dedup(keys)
+	sv := subjVal[best]
+	if sv == nil {
+		return nil, nil, false
+	}
+	// seen from the caller: a subject that is the callee's parameter is the call's argument
+	if prm, isP := sv.(*ssa.Parameter); isP && prm.Parent() == cal {
+		if k := paramIndex(prm); k >= 0 && k < len(x.Call.Args) {
+			sv = x.Call.Args[k]
+		}
+	}
+	return keys, sv, true
+}
+
+// bindSubject: the subject of a membership test as the caller sees it: a value of a helper is bound with the helper's
+// parameters standing for the arguments of the call that the condition is a result of.
+func bindSubject(b *binder, subj ssa.Value, cond ssa.Value) string {
+	var call *ssa.Call
+	switch x := cond.(type) {
+	case *ssa.Call:
+		call = x
+	case *ssa.Extract:
+		call, _ = x.Tuple.(*ssa.Call)
+	}
+	if call != nil {
+		if cal := call.Call.StaticCallee(); cal != nil && subj.Parent() == cal && len(cal.Params) == len(call.Call.Args) {
+			var args []string
+			for _, a := range call.Call.Args {
+				args = append(args, b.bind(a))
+			}
+			return b.withArgs(cal, args).bind(subj)
+		}
+	}
+	return b.bind(subj)
+}
+
+// swapByAlternatives: the stored id is, in every alternative, <first three characters> + "S" under the test that the
+// fourth character is 'N', or + "N" under the test that it is 'S' (a helper returning the opposite platform).
+func swapByAlternatives(b *binder, v ssa.Value) bool {
+	alts := storeAlternatives(b, v)
+	if len(alts) == 0 {
+		return false
+	}
+	pairs := map[byte]byte{}
+	for _, alt := range alts {
+		if alt.val == `const:""` || alt.val == "const:nil" {
+			continue // the "no change" answers of the helper
+		}
+		var to byte
+		switch {
+		case strings.HasSuffix(alt.val, `+ const:"S")`), strings.HasSuffix(alt.val, "conv(const:83))"):
+			to = 'S'
+		case strings.HasSuffix(alt.val, `+ const:"N")`), strings.HasSuffix(alt.val, "conv(const:78))"):
+			to = 'N'
+		default:
+			return false
+		}
+		var from byte
+		for _, g := range alt.guards {
+			if strings.HasPrefix(g, "+") && strings.Contains(g, "[const:3]") {
+				if strings.Contains(g, "== const:78)") {
+					from = 'N'
+				} else if strings.Contains(g, "== const:83)") {
+					from = 'S'
+				}
+			}
+		}
+		if from == 0 {
+			return false
+		}
+		pairs[from] = to
+	}
+	return len(pairs) == 2 && pairs['N'] == 'S' && pairs['S'] == 'N'
 }
